@@ -260,6 +260,7 @@ DOC = {
 
 KEYWORD_SCRIPT = r"""
 import json, sys
+from collections import defaultdict
 from pathlib import Path
 from pydantic import TypeAdapter
 from datamodel_code_generator import generate, InputFileType
@@ -268,7 +269,8 @@ opts = json.loads(sys.argv[1]); renames = json.loads(sys.argv[2]); loaded = json
 kw = {}
 for k, v in opts.items():
     if k in loaded:                       # file-valued option: main() loads the JSON and passes the mapping
-        kw[k] = json.loads(Path(v).read_text())
+        hook = (lambda d: defaultdict(dict, **d)) if k == "extra_template_data" else None   # as main() loads it
+        kw[k] = json.loads(Path(v).read_text(), object_hook=hook)
         continue
     if k in ("additional_imports", "custom_formatters"):   # a comma separated string on the CLI / in pyproject
         v = v.split(",")
@@ -285,12 +287,24 @@ except Exception as e:
 """
 
 RENAMES = {"use_default": "apply_default_values_for_required_fields", "force_optional": "force_optional_for_required_fields"}
-FILE_VALUED = ["aliases"]
-E2E_EXTRA = {  # options outside the canonical-text model but easy to supply three ways
+FILE_VALUED = ["aliases", "extra_template_data", "custom_formatters_kwargs"]
+E2E_EXTRA = {  # options outside the canonical-text model but easy to supply three ways: file-valued (opened by a Config
+    # validator, loaded in main()), comma separated string lists (split by a Config validator), plain lists
     "aliases": {"kind": "text", "values": ["aliases.json"], "flag": "--aliases", "nargs": ""},
-    "additional_imports": {"kind": "text", "values": ["decimal.Decimal,fractions.Fraction"], "flag": "--additional-imports", "nargs": ""},
+    "extra_template_data": {"kind": "text", "values": ["extra.json"], "flag": "--extra-template-data", "nargs": ""},
+    "custom_formatters_kwargs": {"kind": "text", "values": ["fmtkw.json"], "flag": "--custom-formatters-kwargs", "nargs": ""},
+    "additional_imports": {"kind": "text", "values": ["decimal.Decimal,fractions.Fraction", "decimal.Decimal"], "flag": "--additional-imports", "nargs": ""},
+    "custom_formatters": {"kind": "text", "values": ["c18fmt,c18fmt2", "c18fmt"], "flag": "--custom-formatters", "nargs": ""},
     "field_extra_keys": {"kind": "enumlist", "values": ["[x-foo]"], "flag": "--field-extra-keys", "nargs": "+"},
 }
+# option sets (not single options) that are always run: a formatter together with its keyword file
+E2E_EXTRA_SETS = [{"custom_formatters": "c18fmt", "custom_formatters_kwargs": "fmtkw.json"}]
+FORMATTER_SRC = (
+    "from datamodel_code_generator.format import CustomCodeFormatter\n\n\n"
+    "class CodeFormatter(CustomCodeFormatter):\n"
+    "    def apply(self, code: str) -> str:\n"
+    "        return code + '\\n# {name} ' + repr(sorted(self.formatter_kwargs.items())) + '\\n'\n"
+)
 SKIP_E2E = {"custom_file_header_path", "encoding", "input_file_type", "debug", "disable_warnings"}  # the last two are consumed by main() itself
 
 
@@ -300,7 +314,8 @@ class Runner:
     def __init__(self) -> None:
         self.root = Path(tempfile.mkdtemp(prefix="c18-", dir=e2e.scratch_root()))
         self.counter = itertools.count(1)
-        self.tab = {**option_table(), **E2E_EXTRA}
+        real = option_table()
+        self.tab = {**real, **{k: {**v, "flag": real.get(k, v)["flag"]} for k, v in E2E_EXTRA.items()}}
 
     def _dir(self, pyproject: dict | None, raw_keys: dict | None = None) -> Path:
         """`pyproject`: dest → canonical text, written under the kebab-case key; `raw_keys`: literal key → TOML value"""
@@ -309,15 +324,22 @@ class Runner:
         (d / ".git").mkdir()
         (d / "s.json").write_text(json.dumps(DOC))
         (d / "aliases.json").write_text(json.dumps({"shopName": "shop_name_", "petName": "pet"}))
+        (d / "extra.json").write_text(json.dumps({"PetTitle": {"config": {"frozen": True}}, "#all#": {"comment": "c18"}}))
+        (d / "fmtkw.json").write_text(json.dumps({"mark": "kw"}))
+        for mod in ("c18fmt", "c18fmt2"):   # importable by `python -m …` and `python -c …` (cwd is on sys.path)
+            (d / f"{mod}.py").write_text(FORMATTER_SRC.format(name=mod))
         if pyproject is not None or raw_keys:
-            lines = ["[tool.datamodel-codegen]"]
-            for k, v in (pyproject or {}).items():
-                val = py_value(self.tab[k]["kind"], v)
-                lines.append(f"{k.replace('_', '-')} = {json.dumps(val)}")
-            for k, val in (raw_keys or {}).items():
-                lines.append(f"{json.dumps(k)} = {json.dumps(val)}")
-            (d / "pyproject.toml").write_text("\n".join(lines) + "\n")
+            (d / "pyproject.toml").write_text(self.pyproject_text(pyproject, raw_keys))
         return d
+
+    def pyproject_text(self, pyproject: dict | None, raw_keys: dict | None = None) -> str:
+        lines = ["[tool.datamodel-codegen]"]
+        for k, v in (pyproject or {}).items():
+            val = py_value(self.tab[k]["kind"], v)
+            lines.append(f"{k.replace('_', '-')} = {json.dumps(val)}")
+        for k, val in (raw_keys or {}).items():
+            lines.append(f"{json.dumps(k)} = {json.dumps(val)}")
+        return "\n".join(lines) + "\n"
 
     def cli(self, cli: dict, pyproject: dict | None = None, extra_argv: list[str] | None = None, raw_keys: dict | None = None) -> dict:
         d = self._dir(pyproject, raw_keys)
@@ -428,18 +450,20 @@ def e2e_options(ck: Check, rn: Runner) -> list[dict]:
             if d == "original_field_name_delimiter":
                 o["snake_case_field"] = "True"
             all_opts.append(o)
+    all_opts += [o for o in E2E_EXTRA_SETS if all(k in tab for k in o)]
     if ck.tier == "thorough":
         return all_opts
     rng = ck.rng.fork("e2e-sample")
     must = [o for o in all_opts if set(o) & {"use_annotated", "field_constraints", "snake_case_field"} or o == {"output_model_type": "msgspec.Struct"}
-            or "" in o.values()]  # every falsy-but-given value is always run
+            or "" in o.values()   # every falsy-but-given value is always run
+            or set(o) & set(E2E_EXTRA)]  # so is every option whose value a validator opens / splits / rewrites
     strata: dict[str, list[dict]] = {}
     for o in all_opts:
         if o in must:
             continue
         strata.setdefault(tab[sorted(o)[0]]["kind"], []).append(o)
     picked = list(must)
-    quota = {"bool": 7, "enum": 5, "enumlist": 2, "text": 2}
+    quota = {"bool": 5, "enum": 4, "enumlist": 1, "text": 1}
     for kind, pool in sorted(strata.items()):
         picked += rng.sample(pool, quota.get(kind, 2))
     return picked
@@ -729,9 +753,15 @@ def both_ways_default_probe(ck: Check, camp, rn: Runner, o: dict) -> None:
 
 # ---------------------------------------------------------------- known findings / replay
 def rerun(ck: Check, rn: Runner, inp: dict) -> None:
+    from . import c18_kv, c18_repeat
+
     camp = ck.campaign("replay")
     kind = inp.get("kind")
-    if kind == "three_ways":
+    if kind in ("repeated", "repeated_rewritten"):
+        c18_repeat.rerun(ck, camp, rn, inp)
+    elif kind == "kv":
+        c18_kv.rerun(ck, camp, rn, inp)
+    elif kind == "three_ways":
         three_ways(ck, camp, rn, inp["opts"], rn.cli({}))
     elif kind == "split":
         split_case(ck, camp, rn, inp["a"], inp["b"])
@@ -754,22 +784,32 @@ def known_findings(ck: Check, rn: Runner) -> None:
 
 
 def run(ck: Check) -> None:
+    from . import c18_kv, c18_repeat
+
     quick = ck.tier == "quick"
     ck.translate("CliTables", cli_tables.generate())
     ck.prove()
     ck.assumptions += [
         "argparse, pydantic (coercion of option values) and tomllib behave as documented; their tables are read at run time",
         "the canonical-text model of Config.merge covers boolean, enum, enum-list and plain-text options; options whose value a "
-        "validator transforms (paths, opened files, comma-split strings, header lists, url) are only exercised end-to-end or not at all "
-        "(http_*, url, custom_template_dir, custom_formatters*)",
+        "validator transforms (paths, opened files, comma-split strings, url) are only exercised end-to-end or not at all "
+        "(url, custom_template_dir); the name<sep>value validators of http_headers / http_query_parameters have their own model "
+        "(Model/KeyValue) and correspondence",
+        "histories: main() is called again in the same interpreter only with identical option flags (what differing flags do to the "
+        "shared Namespace is D18, C08's subject)",
         "argparse usage errors (unknown flag, invalid choice) exit with status 2: treated as outside 'failure' in the statement",
         "the module-level argparse Namespace (D18) is the subject of C08; every CLI run here is a fresh process",
     ]
     campaign_merge(ck, 800 if quick else 8000)
     campaign_pyproject(ck, 120 if quick else 1200)
+    c18_kv.campaign_kv_model(ck, 600 if quick else 6000)
     rn = Runner()
     try:
+        kv_finish = c18_kv.campaign_kv_three_ways(ck, rn, background=True)   # collected while the next campaign runs
         cache = campaign_three_ways(ck, rn)
+        kv_finish()
+        c18_repeat.campaign_repeated(ck, rn, cache)
+        c18_kv.campaign_kv_repeated(ck, rn, ck.campaigns[-1])
         campaign_alias_spellings(ck, rn)
         campaign_both_present(ck, rn, cache)
         campaign_split(ck, rn)
@@ -777,7 +817,11 @@ def run(ck: Check) -> None:
         known_findings(ck, rn)
     finally:
         rn.close()
+    # targeted searches (only after a broken obligation / correspondence), the most specific first: the value-carrying
+    # family when its model or theorems broke, the options named by the table refuters, then every option through histories
+    ck.search_hooks.append(c18_kv.search_kv)
     ck.search_hooks.append(search_broken_tables)
+    ck.search_hooks.append(c18_repeat.search_repeated)
 
 
 def replay(ck: Check, path: str) -> int:
